@@ -269,9 +269,9 @@ def monotonic_release(ctx) -> None:
     fn = prog.func(f'{CASE}:Project.put')
     graph = cfg.CFG(fn.node)
     pushes = [core.enclosing_stmt(c) for c in core.calls_in(fn.node) if isinstance(c.func, ast.Attribute) and c.func.attr == 'push' and 'registry' in core.src(c.func.value)]
-    if len(pushes) != 1:
-        raise core.AnalysisError('Project.put: single registry.push idiom not found')
-    push = pushes[0]
+    if not pushes:
+        raise core.AnalysisError('Project.put: registry.push not found')
+    push = pushes[-1]
     tr = next((s for s in fn.body if isinstance(s, ast.Try)), None)
     if tr is None:
         raise core.AnalysisError('Project.put: try/except/else idiom not found')
@@ -290,8 +290,9 @@ def monotonic_release(ctx) -> None:
     ctx.check(bool(cmps), 'C05.monotonic', fn, 'a release not greater than the latest existing one is rejected', fn.node, key='put:compare')
     hnodes = [h for h in handlers]
     via = [c for c in cmps] + hnodes
-    ok = bool(cmps) and graph.must_pass(cfg.ENTRY, push, via=via)
-    ctx.check(ok, 'C05.monotonic', fn, 'registry.push is reachable only through the version comparison or the no-previous-release handler', push, key='put:dominance', path=graph.path(cfg.ENTRY, push, avoid=via))
+    for push in pushes:
+        ok = bool(cmps) and graph.must_pass(cfg.ENTRY, push, via=via)
+        ctx.check(ok, 'C05.monotonic', fn, 'registry.push is reachable only through the version comparison or the no-previous-release handler', push, key='put:dominance', path=graph.path(cfg.ENTRY, push, avoid=via))
     prev = [s for s in core.walk_local(fn.node) if isinstance(s, ast.Assign) and core.src(s.targets[0]) == 'previous']
     ctx.check(len(prev) == 1 and core.src(prev[0].value) == 'self.list().last', 'C05.monotonic', fn, 'the comparison is against the maximum existing release (list().last)', prev[0] if prev else fn.node, key='put:previous')
 
